@@ -90,6 +90,22 @@ def dep_edges(region_stmts):
                 for k in n.keywords:
                     srcs |= names_in(k.value)
                 add(b, srcs)
+            elif isinstance(n, ast.Expr) and isinstance(n.value, ast.Call) and n.value.args \
+                    and not (isinstance(n.value.func, ast.Attribute) and n.value.func.attr in MUTATORS):
+                # a bare call statement may update its first argument in place
+                # from the others (a helper extracted from an in-place store);
+                # over-approximating dependence is the safe direction here
+                c = n.value
+                fname = c.func.id if isinstance(c.func, ast.Name) else (c.func.attr if isinstance(c.func, ast.Attribute) else "")
+                if not (fname.startswith("check_") or fname in ("warn", "print", "check_type", "check_scalar")):
+                    b = base_name(c.args[0])
+                    srcs = set()
+                    for a in c.args[1:]:
+                        srcs |= names_in(a)
+                    for k in c.keywords:
+                        srcs |= names_in(k.value)
+                    if b and srcs:
+                        add(b, srcs)
             elif isinstance(n, ast.Call):
                 # out= keyword and known in-place numpy helpers
                 for k in n.keywords:
